@@ -135,3 +135,5 @@ SPEC = dict(contracts=['nd.h', 'dv.h', 'c05_tag.h', 'c06_mtag.h', 'c06_single.h'
             trusted_base=['CBMC 6.11.0 (C front end, --dfcc, SAT back end)', 'vlib/cxx2c.py idiom map incl. region units; vector element accesses of the enclosing function become scalar live-in parameters of the region'] + ND_TRUST +
                          ['ghost inputs: the index pair of the region and GreaterOrEqual(position) (C07 contracts, not connected here); assumed: DataView construction and positionAndExtentInData contracts (see C05)'],
             assumptions=['KERNEL ONLY: the two regions named above. Reading the positions/extents rows, padding of unspecified dimensions, unit scaling, the index-list gate (max_element) and the list = map(single) loop structure are NOT covered'])
+
+SPEC['assumptions'] = list(SPEC.get('assumptions', [])) + ['session 3: mtag_lookup_dim / single-position feature retrievals - the vectors, the axis lookup and the list retrieval are ghost records of their arguments', 'KNOWN FINDING KF-C06-exclusive-padding: in Exclusive mode a dimension the positions do not specify loses its last element (reported on every run, not counted)']
